@@ -12,7 +12,10 @@
      beyond the end pads with nulls; "[n+]" inserts a null at n and shifts the rest up; "[+]"
      appends;
    - delete: "key" / "[n]" remove the entry (higher indices shift down), any other ending
-     (".", "{}", "[]") replaces the addressed value by null and keeps its slot.
+     (".", "{}", "[]") replaces the addressed value by null and keeps its slot;
+   - copy: the destination's value becomes the source's value (a document has no sharing, so "deep copy"
+     is "the same value"); when source and destination lie in the same document (d_copy_within) the value
+     read is the one the source had BEFORE the copy, after the destination path was conformed.
    No allocation sizes, no hash tables. *)
 Require Import List NArith ZArith Bool.
 Import ListNotations.
@@ -217,10 +220,25 @@ Definition d_set_subtree (root : doc) (d : bytes) : doc * doutcome :=
    destination, replacing any existing content" *)
 Definition d_copy (dest src : doc) : doc := src.
 
+(* the aliased copy (source and destination in the same document): the path of d is conformed, the value
+   at d2 is read in the conformed document (null when it is absent or d2 is an error), and that OLD value
+   becomes the value at d; everything else is as in the conformed document *)
+Definition d_source_of (r1 : doc) (d2 : bytes) : doc :=
+  match d_get_node r1 d2 with inr n => n | inl _ => DNull end.
+
 Record dstate := mkDState { ds_root : doc; ds_aux : doc }.
 Definition d_init := mkDState DNull DNull.
 Definition d_sub_outcome (r : ecode + doutcome) : doutcome :=
   match r with inl e => mkDOut (-2) e DPNone | inr o => o end.
+
+Definition d_copy_within (root : doc) (d d2 : bytes) : doc * doutcome :=
+  let '(r1, res1) := d_set_subtree_then root d (fun a => (a, tt)) in
+  match res1 with
+  | inl e => (r1, mkDOut (-2) e DPNone)
+  | inr _ =>
+    let '(r2, res2) := d_set_subtree_then root d (fun _ => (d_source_of r1 d2, dok0)) in
+    (r2, d_sub_outcome res2)
+  end.
 
 Definition d_step (s : dstate) (o : op) : dstate * doutcome :=
   let root := ds_root s in
@@ -244,6 +262,7 @@ Definition d_step (s : dstate) (o : op) : dstate * doutcome :=
   | OCopyIn d =>
     let '(r', res) := d_set_subtree_then root d (fun a => (d_copy a aux, dok0)) in
     (mkDState r' aux, d_sub_outcome res)
+  | OCopyWithin d d2 => let '(r', out) := d_copy_within root d d2 in (mkDState r' aux, out)
   | OQuote k => (s, mkDOut 0 E0 (DPStr (quote_key k)))
   end.
 
